@@ -54,6 +54,13 @@ Stmt(t) ==
       [] t = "AP1n2" -> [k |-> "apply", n |-> "m1", as |-> <<N(2)>>]
       \* two names that differ only in letter case are two names
       [] t = "Lq" -> Lab("q") [] t = "LQ" -> Lab("Q") [] t = "DLq" -> Dat("dl", I("q")) [] t = "DLQ" -> Dat("dl", I("Q"))
+      \* `=` whose right-hand side is a name bound only during the passes (label, loop variable, deferred parameter)
+      [] t = "Evc" -> [k |-> "sym", n |-> "v", e |-> I("c")] [] t = "DLv" -> Dat("dl", I("v"))
+      [] t = "Mvp" -> [k |-> "macro", n |-> "m1", ps |-> <<"p">>, b |-> <<[k |-> "sym", n |-> "v", e |-> I("p")], Dat("dl", I("v"))>>]
+      [] t = "P7" -> [k |-> "assign", n |-> "p", e |-> N(7)]
+      \* a code-block argument that defines a label, spliced inside explicit blocks of the body
+      [] t = "BSP" -> [k |-> "block", b |-> <<[k |-> "splice", p |-> "p"]>>]
+      [] t = "AP1kl" -> [k |-> "apply", n |-> "m1", as |-> <<[k |-> "code", b |-> <<Lab("k"), Dat("dl", I("k"))>>]>>]
       [] t = "SPa" -> [k |-> "splice", p |-> "a"]
       [] t = "AP2na" -> [k |-> "apply", n |-> "m2", as |-> <<N(1), I("a")>>]      \* second argument named like the first parameter
       [] t = "AP2ab" -> [k |-> "apply", n |-> "m2", as |-> <<I("b"), N(2)>>]
@@ -96,6 +103,9 @@ AlphaSeq ==
       [] Family = "caselabels" -> <<"Lq", "LQ", "DLq", "DLQ", "DB", "{", "}">>
       \* a *= to the very address relocated code has reached (@= ROM), then more bytes
       [] Family = "moves2" -> <<"A1", "DB", "S5", "S3", "La", "DLa">>
+      [] Family = "symshadow" -> <<"C10", "Lc", "Evc", "DLv", "{", "}", "FORc02{">>
+      [] Family = "symparam" -> <<"P7", "Mvp", "AP1a", "AP1n", "La", "{", "}">>
+      [] Family = "spliceblk" -> <<"M1{", "}", "BSP", "SPp", "AP1kl", "AP1k", "DB">>
       [] Family = "tiny"   -> <<"La", "DB", "DLa", "{", "}", "S3">>
 Alphabet == Range(AlphaSeq)
 TokIndex(t) == CHOOSE j \in 1..Len(AlphaSeq) : AlphaSeq[j] = t
@@ -139,7 +149,7 @@ OpenStack(q, p, stk) == IF p > Len(q) THEN stk
 ElseAllowed(q) == LET stk == OpenStack(q, 1, <<>>) IN stk # <<>> /\ stk[Len(stk)] = "if"
 
 \* the name a token defines in the scope it stands in ("" if none)
-DefName(t) == CASE t \in {"La", "Ea7", "A5"} -> "a" [] t = "Lb" -> "b" [] t = "Ei7" -> "i" [] t = "Lq" -> "q" [] t = "LQ" -> "Q"
+DefName(t) == CASE t \in {"La", "Ea7", "A5"} -> "a" [] t = "Lb" -> "b" [] t = "Ei7" -> "i" [] t = "Lq" -> "q" [] t = "LQ" -> "Q" [] t = "Evc" -> "v" [] t = "P7" -> "p"
                 [] t \in {"Lc", "C10", "C1234", "C3", "Ec5", "Eca", "Ec1234"} -> "c" [] OTHER -> ""
 \* names defined so far in each open scope (a stack); re-definition in one scope is outside the statements,
 \* so such token strings are not extended (they would all be `unspec`)
